@@ -54,7 +54,7 @@ def generate(r, tier):
         if not kgen.v2_ok(sc["prog"]):
             sc["parser"] = 1
     sc["actions"] = uimachine.gen_actions(r, sc["prog"], r.randint(1, 40), hand_n=len(sc["hand"]), tool_n=len(sc["tool_hist"]),
-                                          weights={"s": 10, "q": 6, "o": 6, "nav": 24})
+                                          weights={"s": 10, "q": 6, "o": 6, "nav": 24, "s!": 3})
     return sc
 
 
@@ -267,7 +267,17 @@ class Monitor:
     saved_before_exit = False
     saved_with_injection = False
 
+    @staticmethod
+    def user_state(k):
+        """What the user did, as the session holds it: user values and choice picks (attribute reads, no evaluation)."""
+        return ({s.name: s._user_value for s in k.unique_defined_syms},
+                [c._user_selection.name if c._user_selection is not None else None for c in k.unique_choices])
+
     def before(self, sess, act):
+        if act["key"].startswith("s!"):
+            self.pre_fault = self.user_state(sess.state.kconf)
+            with simproc.quiet():
+                self.pre_fault_dirty = sess.state.needs_save()
         if self.sparse:
             return {"values": {s.name: s._user_value for s in sess.state.kconf.unique_defined_syms}, "notes": len(sess.app.notes)}
         with simproc.quiet():
@@ -277,6 +287,21 @@ class Monitor:
         st = sess.state
         where = f"after action {i} {act['key']!r} {log[:2]}"
         notes = [n[0] for n in sess.app.notes[pre["notes"]:]]
+        if act["key"].startswith("s!"):
+            # fault: the disk refused the save (read-only tree).  The session must keep every unsaved edit and keep
+            # saying that it needs saving - a save that failed must not make the edits vanish.
+            # (When the file already holds what a save would write, nothing is opened for writing and the save succeeds.)
+            fired = sum((getattr(sess, "fault_counters", None) or {}).values())
+            if fired > getattr(sess, "faults_seen", 0):
+                sess.faults_seen = fired
+                self.ctx.counters["fault:save-on-read-only-disk"] += 1
+                if any(n.startswith("Error saving") for n in notes):
+                    self.ctx.counters["probe:failed-save-reported"] += 1
+                if self.user_state(st.kconf) != self.pre_fault:
+                    self.ctx.violate("C16/edits-lost-by-failed-save", f"{where}: the save failed (EACCES) and the session's user values / choice picks changed")
+                with simproc.quiet():
+                    if self.pre_fault_dirty and not st.needs_save():
+                        self.ctx.violate("C16/clean-after-failed-save", f"{where}: unsaved changes existed, the save failed (EACCES), and needs_save() is now False")
         saved = act["key"] == "s" and any(n.startswith(("Configuration saved", "No change")) for n in notes)
         exited = sess.app.exited
         if exited is not None and (exited.startswith("Configuration saved") or exited.startswith("No change to configuration")):
